@@ -1,0 +1,141 @@
+//go:build verif
+
+package kv
+
+import (
+	"fmt"
+	"sort"
+
+	"github.com/lindb/lindb/kv/table"
+	"github.com/lindb/lindb/kv/version"
+	"github.com/lindb/lindb/pkg/timeutil"
+)
+
+// VerifC02SetSeams wraps the directory seams used by family.deleteObsoleteFiles/deleteSST:
+// afterList runs after the directory was listed, beforeRemove/afterRemove around the removal
+// of one table file. The returned function restores the previous values.
+func VerifC02SetSeams(afterList func(path string), beforeRemove, afterRemove func(path string)) (restore func()) {
+	oldList, oldRemove := listDirFunc, removeDirFunc
+	listDirFunc = func(path string) ([]string, error) {
+		rs, err := oldList(path)
+		afterList(path)
+		return rs, err
+	}
+	removeDirFunc = func(path string) error {
+		beforeRemove(path)
+		err := oldRemove(path)
+		afterRemove(path)
+		return err
+	}
+	return func() { listDirFunc, removeDirFunc = oldList, oldRemove }
+}
+
+type verifC02Job struct {
+	job       CompactJob
+	beforeRun func()
+}
+
+func (j *verifC02Job) Run() error {
+	j.beforeRun()
+	return j.job.Run()
+}
+
+// VerifC02WrapCompactJob makes every compaction job created by families that are created
+// afterwards call beforeRun at the start of Run (after snapshot + pick). Returns restore.
+func VerifC02WrapCompactJob(beforeRun func()) (restore func()) {
+	old := newCompactJobFunc
+	newCompactJobFunc = func(family Family, state *compactionState, rollup Rollup) CompactJob {
+		return &verifC02Job{job: old(family, state, rollup), beforeRun: beforeRun}
+	}
+	return func() { newCompactJobFunc = old }
+}
+
+// VerifC02CompactSync runs the body of the goroutine started by family.compact() on the
+// caller's goroutine (same compacting flag protocol).
+func VerifC02CompactSync(f Family) error {
+	fam, ok := f.(*family)
+	if !ok {
+		return fmt.Errorf("VerifC02CompactSync: not a *family")
+	}
+	if !fam.compacting.CompareAndSwap(false, true) {
+		return fmt.Errorf("VerifC02CompactSync: compaction already running")
+	}
+	defer fam.compacting.Store(false)
+	return fam.backgroundCompactionJob()
+}
+
+// VerifC02DeleteObsoleteFiles runs family.deleteObsoleteFiles.
+func VerifC02DeleteObsoleteFiles(f Family) { f.deleteObsoleteFiles() }
+
+// VerifC02Pending lists the family's pending output file numbers (sorted).
+func VerifC02Pending(f Family) []int64 {
+	fam, ok := f.(*family)
+	if !ok {
+		return nil
+	}
+	var rs []int64
+	fam.pendingOutputs.Range(func(key, _ interface{}) bool {
+		if k, ok := key.(table.FileNumber); ok {
+			rs = append(rs, k.Int64())
+		}
+		return true
+	})
+	sort.Slice(rs, func(i, j int) bool { return rs[i] < rs[j] })
+	return rs
+}
+
+// VerifC02FamilyVersion returns the family's version bookkeeping.
+func VerifC02FamilyVersion(f Family) version.FamilyVersion { return f.getFamilyVersion() }
+
+// VerifC02FamilyPath returns the family's directory.
+func VerifC02FamilyPath(f Family) string { return f.familyInfo() }
+
+// VerifC02Cache returns the store's reader cache.
+func VerifC02Cache(s Store) table.Cache {
+	st, ok := s.(*store)
+	if !ok {
+		return nil
+	}
+	return st.cache
+}
+
+// VerifC02CacheCleanup runs the reader-cache cleanup that store.compact() ends with.
+func VerifC02CacheCleanup(s Store) {
+	if st, ok := s.(*store); ok {
+		st.cache.Cleanup()
+	}
+}
+
+// VerifC02NextFileNumber returns the store's next table file number.
+func VerifC02NextFileNumber(s Store) int64 {
+	st, ok := s.(*store)
+	if !ok {
+		return -1
+	}
+	return version.VerifC02NextFileNumber(st.versions)
+}
+
+// VerifC02CommitRollupDone commits the edit log a finished rollup job commits in the source
+// family: one DeleteRollupFile per (file, interval).
+func VerifC02CommitRollupDone(f Family, files []int64, interval timeutil.Interval) bool {
+	editLog := version.NewEditLog(f.ID())
+	for _, file := range files {
+		editLog.Add(version.CreateDeleteRollupFile(table.FileNumber(file), interval))
+	}
+	return f.commitEditLog(editLog)
+}
+
+// VerifC02CommitLocked reports whether a commit (or file-number allocation) is in progress.
+func VerifC02CommitLocked(s Store) bool {
+	st, ok := s.(*store)
+	if !ok {
+		return false
+	}
+	return version.VerifC02CommitLocked(st.versions)
+}
+
+// VerifC02Compacting reads family.compacting.
+func VerifC02Compacting(f Family) bool {
+	fam, ok := f.(*family)
+	return ok && fam.compacting.Load()
+}
